@@ -192,10 +192,30 @@ def quantize_like_tensor(x, detail, narrow_if_symmetric=False):
   scale = float(qp['scales'][0])
   zp = int(qp['zero_points'][0])
   info = np.iinfo(detail['dtype'])
-  q = np.rint(x.astype(np.float64) / scale) + zp
+  if narrow_if_symmetric:
+    # validate()'s own convention, bit for bit: float32 multiply by the float32
+    # reciprocal of the scale (a 16-bit code can differ by one from the float64
+    # quotient, which then shows in the reported metrics at the 1e-5 level)
+    inv = np.float32(1.0) / np.asarray(qp['scales'], np.float32)[0]
+    q = np.rint(np.multiply(x.astype(np.float32), inv) + zp)
+  else:
+    q = np.rint(x.astype(np.float64) / scale) + zp
   lo = info.min + 1 if (narrow_if_symmetric and zp == 0) else info.min
   return np.clip(q, lo, info.max).astype(detail['dtype'])
 
 
 def uses_skip_checks(out):
   return any(r['cfg'].get('skip') for r in out.accepted)
+
+
+def must_not_execute(case, qbytes):
+  """Names of recorded findings that make executing this quantized model in the
+  worker unsafe (runtime UB or a runtime CHECK that aborts the process)."""
+  from vq import kfpred
+  u = kfpred.unsafe_findings(case)
+  try:
+    if kfpred.addsub_multiplier_overflow(fb.parse(qbytes)):
+      u = u + ['addsub-output-scale']
+  except Exception:  # pylint: disable=broad-except
+    pass
+  return u
